@@ -332,7 +332,7 @@ def _settings_enumerated():
 
 
 def shards(tier):
-    n = 220 if tier == "quick" else 15000
+    n = 500 if tier == "quick" else 15000
     out = [Shard(f"gen-{i}", lambda: cases(), n, subject="hexital", cost=2) for i in range(15)]
     out.append(Shard("enum-settings", cases=_settings_enumerated, subject="hexital", exhaustive=True))
     out += [Shard(f"chain-forms-{i}", lambda: chain_form_cases(), n, subject="hexital", cost=2) for i in range(2)]
